@@ -166,6 +166,11 @@ Proof.
   destruct (tsl_diff true sl dl). destruct (all_empty l && all_empty l0); cbn; tauto.
 Qed.
 
+Lemma diff_core_status' fsub cr sh sl dh dl :
+  fst (diff_core fsub cr sh sl dh dl) = StOk \/ fst (diff_core fsub cr sh sl dh dl) = StDiff \/
+  fst (diff_core fsub cr sh sl dh dl) = StErr.
+Proof. apply diff_core_status. Qed.
+
 (** * sum (C10) *)
 Lemma nth_map2_vadd F d : forall acc vs j, (j < length acc)%nat -> (j < length vs)%nat ->
   nth j (map2_vadd F acc vs) d = vadd F (nth j acc d) (nth j vs d).
